@@ -43,6 +43,7 @@ type input struct {
 	Script []string `json:"script"` // tokens for the child (without the d<cwd> token the harness adds)
 	Dir    string   `json:"dir"`    // inherit | plain | space | missing | symlink | symlink-chain | odd-blank | odd-unicode |
 	//                                  odd-percent | odd-bracket | relative | dotdot | relative-dotdot | nowrite (non-root only)
+	NoCwd  bool     `json:"nocwd,omitempty"`  // the child is not asked to check its working directory (caller cwd-removed)
 	Caller string   `json:"caller,omitempty"` // state of os.Stdout / os.Stderr of the process that makes the call:
 	//                                  "" (the harness' own) | closed | devfull | pipe-unread | devnull
 	// Exe kinds of the class start-fails-transiently (the command is a freshly written script that execs the child):
@@ -298,6 +299,9 @@ func (in input) args() []string {
 		}
 	}
 	a := []string{exe, "d" + hex.EncodeToString([]byte(cwd))}
+	if in.NoCwd {
+		a = []string{exe}
+	}
 	return append(a, in.Script...)
 }
 
@@ -1049,6 +1053,11 @@ func gen(r *lib.Rng, tier string) []gcase {
 		out[len(out)-1].in.Caller = c
 	}
 
+	add("caller-cwd-removed", R, child, inh, "o100", "e70000", "x7")
+	out[len(out)-1].in.Caller, out[len(out)-1].in.NoCwd = "cwd-removed", true
+	add("caller-cwd-removed", R, child, inh, "e200000", "o200000")
+	out[len(out)-1].in.Caller, out[len(out)-1].in.NoCwd = "cwd-removed", true
+
 	// the standard input of the calling process: the call returns once the command has ended whatever
 	// is (not) happening there, and leaves the caller's input alone
 	for _, k := range []string{"pipe-idle", "pipe-pending", "pipe-pending-closed", "socketpair", "devnull", "closed", "file"} {
@@ -1297,6 +1306,15 @@ func main() {
 		if c.Input.Caller == "closed" {
 			os.Stdout.Close()
 			os.Stderr.Close()
+		}
+		if c.Input.Caller == "cwd-removed" {
+			// the calling process sits in a directory that has been removed meanwhile (a cleaned-up build area): a
+			// command given by an absolute path, run without a run directory, starts and ends like anywhere else
+			if d, err := os.MkdirTemp(workDir, "gone-"); err == nil {
+				if os.Chdir(d) == nil {
+					os.Remove(d)
+				}
+			}
 		}
 		stdinKind := c.Input.Stdin
 		if stdinKind == "closed" {
